@@ -18,6 +18,49 @@ import json as _j
 _j.dump(_j.load(open('/verif/known_findings.json'))+_j.load(open('/verif/sim/worlds/daemon/PROPOSED_FINDINGS.json')),open('/var/tmp/w2sens/known.json','w'))  # def _known
 import sys,os,subprocess,shutil,json,time
 muts={
+ 'A1-eni-network-ignored':('C12','pkg/galaxy/server.go',"		if utils.WantENIIP(&pod.Spec) && g.ENIIPNetwork != \"\" {","		if utils.WantENIIP(&pod.Spec) && g.ENIIPNetwork == \"-\" {"),
+ 'A2-eni-network-preferred-over-annotation':('C12','pkg/galaxy/server.go',"	if pod.Annotations == nil || pod.Annotations[constant.MultusCNIAnnotation] == \"\" {","	if pod.Annotations == nil || pod.Annotations[constant.MultusCNIAnnotation] == \"\" || (utils.WantENIIP(&pod.Spec) && g.ENIIPNetwork != \"\") {"),
+ 'A3-entry-interface-name-ignored':('C12','pkg/galaxy/server.go',"""	if netIf != "" {
+		return netIf
+	}""","""	if netIf == "-" {
+		return netIf
+	}"""),
+ 'A4-first-interface-hard-coded-eth0':('C12','pkg/galaxy/server.go',"""	if idx == 0 {
+		return argIf
+	}""","""	if idx == 0 {
+		return "eth0"
+	}"""),
+ 'A5-failed-add-reported-as-success':('C12','pkg/galaxy/server.go',"""		if err1 != nil {
+			err = err1
+			return
+		} else {""","""		if err1 != nil {
+			err = nil
+			return
+		} else {"""),
+ 'A6-failed-del-saves-all-networks-for-retry':('C12','pkg/api/cniutil/cni.go',"		if err := saveNetworkInfo(cmdArgs.ContainerID, fails); err != nil {","		if err := saveNetworkInfo(cmdArgs.ContainerID, networkInfos[:lastIdx+1]); err != nil {"),
+ 'A7-pod-setup-flushes-a-foreign-chain':('C14','pkg/network/portmapping/iptables.go',"""	writeLine(natChains, "*nat")
+	writeKubeMarkRule(natChains, natRules)
+
+	for _, containerPort := range ports {
+		protocol := strings.ToLower(containerPort.Protocol)
+		hostportChain := hostportChainName(containerPort, containerPort.PodName)
+		// write chain name""","""	writeLine(natChains, "*nat")
+	writeKubeMarkRule(natChains, natRules)
+	writeLine(natChains, utiliptables.MakeChainLine("DOCKER"))
+
+	for _, containerPort := range ports {
+		protocol := strings.ToLower(containerPort.Protocol)
+		hostportChain := hostportChainName(containerPort, containerPort.PodName)
+		// write chain name"""),
+ 'A8-full-sync-deletes-chains-that-are-not-galaxys':('C14','pkg/network/portmapping/iptables.go',"""			if !strings.HasPrefix(chainString, kubeHostportChainPrefix) {
+				// Ignore chains that aren't ours.
+				continue
+			}""","""			if !strings.HasPrefix(chainString, "KUBE-") || chain == kubeHostportsChain || chain == KubeMarkMasqChain {
+				// Ignore chains that aren't ours.
+				continue
+			}"""),
+ 'A9-docker-created-container-treated-as-exited':('C17','pkg/gc/flannel_gc.go',"		if c.State != nil && (c.State.Status == ContainerExited || c.State.Status == ContainerDead) {","		if c.State != nil && (c.State.Status == ContainerExited || c.State.Status == ContainerDead || c.State.Status == \"created\") {"),
+
  'N1-gc-collects-notready-sandbox-of-pod-with-running-containers':('C17','pkg/gc/flannel_gc.go',"""					if status.State.Waiting != nil || status.State.Running != nil {
 						return false
 					}""","""					if status.State.Waiting != nil && status.State.Running != nil {
